@@ -383,6 +383,43 @@ fn verif_sql_contracts() {
         let _ = std::fs::remove_file(&path);
     }
     t_dur.done();
+    // C18 "contains every lease whose reply had already been produced", under lock contention: while ANOTHER connection holds the write
+    // lock (a backup, an administrator's open transaction), allocate_address either fails (no reply is produced) or the lease it
+    // returns is on disk once the lock is released
+    let mut t_lock = Tally::new("reopen/granted-under-a-foreign-lock-is-durable");
+    let mut k = 0;
+    for lock in ["BEGIN IMMEDIATE", "BEGIN EXCLUSIVE"] {
+        for prior in [false, true] {
+            for c in 0..2usize {
+                k += 1;
+                let path = dir.join(format!("lock-{}.sqlite", k));
+                let _ = std::fs::create_dir_all(&dir);
+                let _ = std::fs::remove_file(&path);
+                let conn = rusqlite::Connection::open(&path).expect("open");
+                let _ = conn.busy_timeout(std::time::Duration::from_millis(20));
+                let mut p = Pool::new_with_conn(conn).expect("setup_db");
+                let both = pool_of(3, 2);
+                if prior { let _ = p.allocate_address(CLIENTS[0], None, &both, DEFAULT_MIN_LEASE, DEFAULT_MAX_LEASE, b""); }
+                let locker = rusqlite::Connection::open(&path).expect("second connection");
+                let locked = locker.execute_batch(lock).is_ok();
+                let got = p.allocate_address(CLIENTS[c], None, &both, DEFAULT_MIN_LEASE, DEFAULT_MAX_LEASE, b"");
+                let _ = locker.execute_batch("ROLLBACK");
+                drop(locker);
+                if !locked { println!("VERIF-B-RIG {} could not be taken on {:?}", lock, path); continue; }
+                let after = rusqlite::Connection::open(&path).map_err(|e| e.to_string())
+                    .and_then(|c2| { let _ = c2.busy_timeout(std::time::Duration::from_millis(20)); Pool::new_with_conn(c2).map_err(|e| format!("{:?}", e)) }).map(|mut p2| dump(&mut p2));
+                let ok = match (&got, &after) {
+                    (Err(_), _) => true,
+                    (Ok(l), Ok(rows)) => rows.iter().any(|r| r.0 == l.ip.to_string() && r.1 == CLIENTS[c].to_vec() && r.3 > now()),
+                    (Ok(_), Err(_)) => false,
+                };
+                t_lock.check(ok, || format!("{} held by a second connection, client {:?}{}: allocate_address returned {:?} but the database then holds {:?}", lock, CLIENTS[c],
+                    if prior { " (one earlier lease in the table)" } else { "" }, got.as_ref().map(|l| l.ip), after));
+                let _ = std::fs::remove_file(&path);
+            }
+        }
+    }
+    t_lock.done();
     let _ = std::fs::remove_dir_all(&dir);
 }
 
@@ -398,12 +435,27 @@ fn verif_sql_handlers() {
     let conf = super::super::test::mk_default_config();
     let addr: Ipv4Addr = "192.0.2.77".parse().unwrap();
     let histories: [Option<(i64, i64)>; 6] = [None, Some((-200, -100)), Some((-7200, -3600)), Some((-10, 5000)), Some((-200, 5000)), Some((-40000, 50000))];
+    // the client's identity as it is on the wire: the octets of option 61 when the option is present (of ANY length, RFC 2131 4.2 makes
+    // it an opaque key), the hardware address otherwise; and what the client asks for in option 51 must never move the lease time
+    // outside the configured limits
+    let idents: [Option<Vec<u8>>; 5] = [None, Some(vec![]), Some(vec![1]), Some(vec![2, 2]), Some(vec![1, 2, 3, 4, 5, 6, 7])];
+    let wishes: [Option<u32>; 5] = [None, Some(0), Some(60), Some(3600), Some(u32::MAX)];
     for h in histories {
         for msgtype in [dhcppkt::DHCPDISCOVER, dhcppkt::DHCPREQUEST] {
+          for ident in &idents {
+            for wish in wishes {
             let mut p = Pool::new_in_memory().expect("pool");
             let mut req = super::super::test::mk_dhcp_request();
             req.pkt.options = req.pkt.options.set_option(&dhcppkt::OPTION_MSGTYPE, &msgtype);
-            let cid = req.pkt.get_client_id();
+            req.pkt.options = match ident {
+                Some(id) => req.pkt.options.set_raw_option(&dhcppkt::OPTION_CLIENTID, id),
+                None => req.pkt.options.remove_option(&dhcppkt::OPTION_CLIENTID),
+            };
+            req.pkt.options = match wish {
+                Some(w) => req.pkt.options.set_option(&dhcppkt::OPTION_LEASETIME, &w),
+                None => req.pkt.options.remove_option(&dhcppkt::OPTION_LEASETIME),
+            };
+            let cid = match ident { Some(id) => id.clone(), None => req.pkt.chaddr.clone() };
             if let Some((s, e)) = h {
                 let t = now() as i64;
                 p.conn.execute("INSERT INTO leases (address, clientid, start, expiry, options) VALUES (?1, ?2, ?3, ?4, ?5)",
@@ -425,9 +477,11 @@ fn verif_sql_handlers() {
                 }
                 Err(_) => false,
             };
-            t_rec.check(ok, || format!("client history {:?} (start, expiry relative to now), message type {:?}: reply yiaddr {:?}, lease time {:?}, rows (ip, start-now, expiry-now) {:?}", h, msgtype,
+            t_rec.check(ok, || format!("client history {:?} (start, expiry relative to now), message type {:?}, option 61 {:?}, option 51 {:?}: reply yiaddr {:?}, lease time {:?}, rows (ip, client, start-now, expiry-now) {:?}", h, msgtype, ident, wish,
                 got.as_ref().map(|r| r.yiaddr).ok(), got.as_ref().ok().and_then(|r| r.options.get_option::<u32>(&dhcppkt::OPTION_LEASETIME)),
-                p.get_leases().map(|ls| ls.into_iter().map(|x| (x.ip, x.start as i64 - t1 as i64, x.expire as i64 - t1 as i64)).collect::<Vec<_>>()).ok()));
+                p.get_leases().map(|ls| ls.into_iter().map(|x| (x.ip, x.client_id, x.start as i64 - t1 as i64, x.expire as i64 - t1 as i64)).collect::<Vec<_>>()).ok()));
+            }
+          }
         }
     }
     t_rec.done();
